@@ -316,8 +316,24 @@ func vectors(n int) [][]int {
 		v[i] = kBoundary
 		out = append(out, v)
 	}
+	if thoroughVectors {
+		// thorough tier: also all-boundary and one zero per position
+		bnd := make([]int, n)
+		for i := range bnd {
+			bnd[i] = kBoundary
+		}
+		out = append(out, bnd)
+		for i := 0; i < n; i++ {
+			v := append([]int(nil), pat...)
+			v[i] = kZero
+			out = append(out, v)
+		}
+	}
 	return out
 }
+
+// thoroughVectors is set in the thorough tier.
+var thoroughVectors bool
 
 type vecPair struct{ args, rets []int }
 
@@ -729,6 +745,21 @@ func crashesSoFar(c *vk.Ctx) int {
 	return n
 }
 
+// flushPartial writes the counters and violations collected so far to the result file (done=false), so
+// that they survive if a later case kills the process; the driver merges such partial results.
+func flushPartial(c *vk.Ctx) {
+	if c.Out == "" {
+		return
+	}
+	b, err := json.Marshal(&c.Res)
+	if err != nil {
+		return
+	}
+	if os.WriteFile(c.Out+".part", b, 0644) == nil {
+		_ = os.Rename(c.Out+".part", c.Out)
+	}
+}
+
 // Run is the worker entry point.
 func Run(c *vk.Ctx) {
 	runtime.GOMAXPROCS(1)
@@ -767,10 +798,11 @@ func Run(c *vk.Ctx) {
 		return
 	}
 
+	thoroughVectors = c.Thorough()
 	reported := map[string]bool{}
 	poisoned := map[string]bool{}
 	var idx int64
-	var nFns, nMoved, nNotMoved, nSkipped int64
+	var nFns, nMoved, nNotMoved, nSkipped, nGroups int64
 	families := map[string]int{}
 	for _, f := range glue.Fns {
 		if !c.Thorough() && !f.Quick {
@@ -787,6 +819,9 @@ func Run(c *vk.Ctx) {
 			}
 			if c.Full() || c.Expired() {
 				continue
+			}
+			if nGroups++; nGroups%100 == 0 {
+				flushPartial(c)
 			}
 			for _, mode := range modes {
 				for form := 0; form < glue.NForms; form++ {
@@ -834,6 +869,7 @@ func Run(c *vk.Ctx) {
 						}
 						mc.Sig = sig(f)
 						c.Violate(key(&mc, mfl.kind), mfl.desc, mc)
+						flushPartial(c)
 					}
 				}
 			}
